@@ -87,6 +87,40 @@ def havoc_like(ip, old, ty=None, name="v"):
     return c.from_val(t, ty)
 
 
+def type_claim(c, v, ty):
+    """formula (or python bool) saying that engine value v has the static type ty that a loop contract declares for a local"""
+    if ty is None or ty == "val":
+        return True
+    if v is None:
+        return ty.startswith("opt:")
+    base = ty[4:] if ty.startswith("opt:") else ty
+    if isinstance(v, bool):
+        return base == "bool"
+    if isinstance(v, int):
+        return base == "int"
+    if isinstance(v, str):
+        return base == "str"
+    if isinstance(v, float):
+        return base == "float"
+    if isinstance(v, PList):
+        return base.startswith("list")
+    if isinstance(v, PDict):
+        return base.startswith("dict")
+    if isinstance(v, Sym):
+        t = v.t
+        if t.sort() == Val:
+            return c.ty_fact(t, ty)
+        if t.sort() == I and v.ty is not None and (v.ty == "Node" or v.ty.startswith("list") or v.ty.startswith("dict")):
+            return c.ty_fact(Val.ref(t), ty)
+        if t.sort() == I:
+            return base == "int"
+        if t.sort() == B:
+            return base == "bool"
+        if t.sort() == S:
+            return base == "str"
+    return True     # engine objects (PObj, bound methods, ...): not typed by loop contracts
+
+
 def iter_kind(ip, it):
     """-> ('conc', python list of values) | ('list', ref, elt) | ('dict', ref, what, valty) | ('range', start, stop, step) | ('enum', inner)"""
     c = ip.c
@@ -336,9 +370,34 @@ def cut_loop(ip, key, assigned, guard, bind, body, extra=None, lc=None):
         for gname, gf in lc.ghost.items():
             gv = gf(c.sv(), v0)
             ghost[gname] = Sym(gv, "ghost") if z3.is_expr(gv) else gv
-    # 1. invariant holds on entry
+    # 1. invariant holds on entry; so do the static types the contract declares for the locals it havocs
     for nm, f in inv_clauses(0):
         c.prove(f"{name}/init/{nm}", f, kind="loop-init")
+    vt0 = lc.var_types if lc is not None else {}
+
+    def inferred(old):
+        # the type havoc_like() gives a local that has no declared type: that of its value at loop entry
+        if isinstance(old, bool):
+            return "bool"
+        if isinstance(old, int):
+            return "int"
+        if isinstance(old, str):
+            return "str"
+        if isinstance(old, Sym):
+            return old.ty
+        if isinstance(old, PList):
+            return "list"
+        return None
+    used_ty = {vn: (vt0[vn] if vn in vt0 else inferred(fr.locals.get(vn))) for vn in assigned}
+
+    def prove_types(stage):
+        for vn in sorted(assigned):
+            if used_ty.get(vn) is not None and vn in fr.locals:
+                tc = type_claim(c, fr.locals[vn], used_ty[vn])
+                if tc is True:
+                    continue
+                c.prove(f"{name}/{stage}/type:{vn}", z3.BoolVal(False) if tc is False else tc, kind="loop-type")
+    prove_types("init")
     # 2. havoc
     c.epoch += 1
     lp = {"key": key, "arrays": set(learned["arrays"]), "fields": set(learned["fields"]), "epoch": c.epoch}
@@ -392,6 +451,7 @@ def cut_loop(ip, key, assigned, guard, bind, body, extra=None, lc=None):
         # back edge
         for nm, f in inv_clauses(k + 1):
             c.prove(f"{name}/preserved/{nm}", f, kind="loop-step")
+        prove_types("preserved")
         if dec0 is not None:
             dec1 = lc.decreases(SV(c.heap0), c.sv(), view(k + 1))
             c.prove(f"{name}/decreases", z3.And(dec0 >= 0, dec1 < dec0), kind="termination")
